@@ -176,6 +176,10 @@ class Calls(Interp):
             yield from ext(self, st, args, kwargs)
             return
         con = self.contracts.get(qn)
+        cur = self.current or ''
+        if '#' in cur and (qn + '#' + cur.split('#', 1)[1]) in self.contracts:
+            # a function verified under a view (second contract) sees the same view of its callees where one is given
+            con = self.contracts[qn + '#' + cur.split('#', 1)[1]]
         if con is not None and not inline and not (qn == self.current and st.depth == 0 and not con.recursive_ok) \
                 and not st.spec and qn not in self.force_inline:
             yield from self.apply_contract(con, func, args, kwargs, st)
@@ -225,6 +229,15 @@ class Calls(Interp):
     def run_body(self, node, globs, qualname, args, kwargs, st, parent, captured=None):
         vals = self.bind_params(node, args, kwargs, st, qualname)
         st.stack.append(Frame(vals, parent, globs, qualname, captured))
+        if qualname in self.force_inline and qualname in self.contracts:
+            # a generic helper that is verified where it is inlined: the ghost names of its contract (entry values)
+            # become locals of this activation, for its loop invariants
+            con_ = self.contracts[qualname]
+            for lname, ltext in con_.lets:
+                val = self.spec_value(ltext, st)
+                if isinstance(val, Ref) and st.heap[val.loc].kind in ('list', 'set', 'dict') and st.heap[val.loc].val is not None:
+                    val = st.heap[val.loc].val
+                st.frame.vars[lname] = val
         st.depth += 1
         depth = len(st.stack)
         for s, ctl in self.exec_block(node.body, st):
@@ -905,6 +918,13 @@ class Calls(Interp):
             ln = self.norm_len(y, st)
             if z3.is_int_value(ln) and ln.as_long() == length:
                 return V(y, BYTES)
+        xs = z3.simplify(x)
+        if z3.is_int_value(xs) and 0 <= xs.as_long() < 256 ** length:
+            # a literal: its actual big-endian bytes, tied to the summary function
+            lit = bytes_term(xs.as_long().to_bytes(length, 'big'))
+            self.add_func_axiom(tb(xs) == lit)
+            self.add_func_axiom(be(lit) == xs)
+            return V(lit, BYTES)
         r = tb(x)
         self.add_func_axiom(z3.Length(r) == length)
         self.add_func_axiom(z3.Implies(z3.And(x >= 0, x < 256 ** length), be(r) == x))
@@ -1008,8 +1028,84 @@ class Calls(Interp):
             else:
                 yield s2, Raised(ExcVal(_struct.error))
 
-    def new_stream(self, args, st):
-        raise Outside("BytesIO")
+    # ---- io.BytesIO: a byte sequence with a cursor (A-IO) --------------------------------------------------------------
+
+    def new_stream(self, args, st, data=None, pos=0):
+        if data is None:
+            data = self.lift(args[0], st) if args else V(z3.Empty(BYTES_SORT), BYTES)
+        loc = next(self.loc_counter)
+        st.heap[loc] = HeapObj('stream', fields={'data': data, 'pos': pos if isinstance(pos, V) else V(z3.IntVal(pos), INT)})
+        st.writes += 1
+        yield st, Ref(loc)
+
+    def stream_moved(self, st, h, before):
+        """the cursor of a stream went from `before` to its current value: for every earlier cursor position a of this
+        stream, state the instance of the sequence theorem
+            a <= before <= after <= len(d)  ==>  d[a:after] == d[a:before] + d[before:after]
+        (valid for all values; the solvers prove it instantly in isolation but do not find the split points themselves)"""
+        after = h.fields['pos'].t
+        data = h.fields['data'].t
+        anchors = h.fields.get('!anchors', ())
+        if before.eq(after):
+            return
+        for a in anchors:
+            if a.eq(before) or a.eq(after):
+                continue
+            whole = self.mk_extract(data, a, z3.simplify(after - a), st)
+            left = self.mk_extract(data, a, z3.simplify(before - a), st)
+            right = self.mk_extract(data, before, z3.simplify(after - before), st)
+            st.assume(z3.Implies(z3.And(a >= 0, a <= before, before <= after, after <= z3.Length(data)),
+                                 whole == z3.Concat(left, right)))
+        if not any(a.eq(before) for a in anchors):
+            h.fields['!anchors'] = tuple(anchors) + (before,)
+
+    def m_stream_read(self, ref, h, args, kwargs, st, e):
+        if not args:
+            raise Outside("read() without a size")
+        n = self.term(args[0], INT)
+        data, pos = h.fields['data'].t, h.fields['pos'].t
+        total = self.norm_len(data, st)
+        enough = z3.And(n >= 0, pos + n <= total)
+        for s2, ok in self.branch(st, enough, "L%s:read" % getattr(e, 'lineno', '?')):
+            h2 = s2.heap[ref.loc]
+            if ok:
+                r = self.mk_extract(data, pos, n, s2)
+                h2.fields['pos'] = V(z3.simplify(pos + n), INT)
+                self.stream_moved(s2, h2, pos)
+            else:
+                # fewer bytes than asked for: everything that is left (read(n) returns at most n bytes)
+                if not self.entails(s2, n >= 0):
+                    raise Outside("read() with a possibly negative size")
+                r = self.mk_extract(data, pos, z3.simplify(total - pos), s2)
+                h2.fields['pos'] = V(total, INT)
+                self.stream_moved(s2, h2, pos)
+            s2.writes += 1
+            yield s2, V(r, BYTES)
+
+    def m_stream_write(self, ref, h, args, kwargs, st, e):
+        (b,) = args
+        data, pos = h.fields['data'].t, h.fields['pos'].t
+        if not self.entails(st, pos == self.norm_len(data, st)):
+            raise Outside("write() not at the end of the stream")
+        bt = self.term(b, BYTES, st)
+        h.fields['data'] = V(self.mk_concat(data, bt), BYTES)
+        h.fields['pos'] = V(z3.simplify(pos + self.norm_len(bt, st)), INT)
+        st.writes += 1
+        yield st, V(self.norm_len(bt, st), INT)
+
+    def m_stream_tell(self, ref, h, args, kwargs, st, e):
+        yield st, h.fields['pos']
+
+    def m_stream_seek(self, ref, h, args, kwargs, st, e):
+        p = self.term(args[0], INT)
+        if len(args) > 1:
+            raise Outside("seek with whence")
+        h.fields['pos'] = V(p, INT)
+        st.writes += 1
+        yield st, V(p, INT)
+
+    def m_stream_getvalue(self, ref, h, args, kwargs, st, e):
+        yield st, h.fields['data']
 
     def enumerate_map(self, m, what, st):
         raise Outside("enumeration of a map's %s" % what)
